@@ -139,7 +139,7 @@ def mkCtx (tsOf : Bytes → Int) (ds : List FileDesc) : Ctx :=
   let st := ds.map (stampsOf tsOf)
   let rd := ds.map readable
   { ds := ds, stamps := st, readableF := rd,
-    seekableF := List.zipWith (fun r s => r && stampsOK s) rd st,
+    seekableF := ds.map (seekable tsOf),
     allReadable := rd.all id,
     allSeekable := rd.all id && stampsOK st.flatten }
 
@@ -217,5 +217,16 @@ def specStep (c : Ctx) (st : SpecState) (op : Op) (o : Obs) :
 
 def specOK (c : Ctx) (st : SpecState) (op : Op) (o : Obs) : Bool :=
   (specStep c st op o).1.isNone
+
+/-- Run the model over an operation history with the monitor in lock-step (the
+driver does exactly this with the implementation's observations in place of
+`obsOf … (modelStep …)`): `true` iff the monitor accepts every step. -/
+def monitorRun (P : Params) (fs : List File) (tsOf : Bytes → Int) (c : Ctx) :
+    RState → SpecState → List Op → Bool
+  | _, _, [] => true
+  | r, sp, op :: ops =>
+    let mo := modelStep P fs tsOf r op
+    let so := specStep c sp op (obsOf fs mo.2)
+    so.1.isNone && monitorRun P fs tsOf c mo.1 so.2 ops
 
 end AGH.C20
